@@ -35,7 +35,14 @@ def _settings_guard():
 
 def _solve(build):
     try:
-        st, val = build().solve(verbose=False)
+        prob = build()
+        st, val = prob.solve(verbose=False)
+        # solving the same Problem object again is the same question: same status, same value (to solver tolerance)
+        st2, val2 = prob.solve(verbose=False)
+        same = st2 == st and ((isinstance(val, float) and isinstance(val2, float) and (val2 == val or (math.isnan(val) and math.isnan(val2)) or
+                              (math.isfinite(val) and math.isfinite(val2) and abs(val2 - val) <= 1e-6 * (1 + abs(val))))) or val2 == val)
+        if not same:
+            return 'error', 'a second solve() of the same Problem gives (%s, %r) after (%s, %r)' % (st2, val2, st, val)
         return st, val
     except RuntimeError as e:
         msg = ' '.join(str(e).split())
@@ -54,6 +61,8 @@ def _judge(vals, ub, desc, groups, chains):
     """vals: key -> (status, value); groups: lists of keys whose values must agree; chains: lists of keys along which the value must
     not decrease"""
     for k, v in vals.items():
+        if v[0] == 'error' and isinstance(v[1], str) and v[1].startswith('a second solve()'):
+            return '%s: %s: %s' % (desc, k, v[1])
         if v[0] == 'solved' and isinstance(v[1], float):
             if v[1] == math.inf and math.isfinite(ub):
                 return '%s: %s reports +inf although the feasible set is non-empty (f = %r at a feasible point)' % (desc, k, ub)
@@ -95,6 +104,13 @@ def lattice_c03(ctx):
     g2 = np.linspace(-2.5, 2.0, 181)
     insts.append(('y0^2+y1^2-y0y1+1/y0+.5/y1', f2, 2, [(float(f2(np.array([a, b]))), np.array([a, b])) for a in g2 for b in g2],
                   [3 - y2[0], y2[0] - 0.2, 3 - y2[1], y2[1] - 0.2], (0, 1)))
+    # degenerate signomials: every term positive, so every AGE cone of f - gamma is trivial and the constraint reduces to c >= 0
+    fp = 3 + 2 * y2[0] * y2[1] ** -1
+    gp = np.linspace(-3.0, 3.0, 61)
+    insts.append(('3 + 2 y0/y1 (posynomial)', fp, 2, [(float(fp(np.array([a, b]))), np.array([a, b])) for a in gp for b in gp],
+                  [3 - y2[0], y2[0] - 0.2, 3 - y2[1], y2[1] - 0.2], (0,)))
+    fm = 2 * y[0]
+    insts.append(('2 e^x (one term)', fm, 1, [(float(fm(np.array([t]))), np.array([t])) for t in np.linspace(-12, 3, 1501)], [2 - y[0], y[0] - 0.25], (0,)))
     nsolves = 0
     with _settings_guard() as G:
         for name, f, n, pts, bounds, ells in insts:
@@ -238,6 +254,23 @@ def lattice_c05(ctx):
     why = _judge(vals, -4.0, 'min x0 x1 s.t. 1 - x0 x1 >= 0, |x0| <= 2, |x1| <= 2', [], [])
     if why:
         return why, nsolves
+    # a user-specified PolyDomain whose conic description starts with an equality block: |x0 x1| = 1, 1/2 <= |x0| <= 2
+    import sageopt.coniclifts as cl
+    from sageopt.symbolic.polynomials import PolyDomain
+    yl = cl.Variable(shape=(2,), name='lat_logabs')
+    Xu = PolyDomain(2, logspace_cons=[yl[0] + yl[1] == 0, yl[0] <= math.log(2.0), yl[0] >= -math.log(2.0)],
+                    gts=[lambda z: 2.0 - abs(z[0]), lambda z: abs(z[0]) - 0.5], eqs=[lambda z: abs(z[0] * z[1]) - 1.0])
+    pu = x2[0] ** 2 + x2[1] ** 2 - x2[0] * x2[1] + 0.5 * x2[0]
+    ubu = min(float(pu(np.array([sa * t, sb / t]))) for t in np.linspace(0.5, 2.0, 3001) for sa in (1.0, -1.0) for sb in (1.0, -1.0))
+    vals = {}
+    for form in ('primal', 'dual'):
+        vals[(form, 'poly_relaxation over user X')] = _solve(lambda: sp.poly_relaxation(pu, X=Xu, form=form))
+        vals[(form, 'poly_constrained_relaxation over user X')] = _solve(lambda: sp.poly_constrained_relaxation(pu, [], [], Xu, form=form))
+        nsolves += 2
+    why = _judge(vals, ubu, 'min x0^2+x1^2-x0x1+.5x0 over {|x0 x1| = 1, 1/2 <= |x0| <= 2} (equality block first)',
+                 [[('primal', 'poly_relaxation over user X'), ('dual', 'poly_relaxation over user X')]], [])
+    if why:
+        return why, nsolves
     # constrained, both reflections (the minimiser lies in different orthants)
     for sg in (1.0, -1.0):
         for name, p, gts, pts, levels in (
@@ -256,6 +289,13 @@ def lattice_c05(ctx):
                         vals[k] = _solve(lambda: sp.poly_constrained_relaxation(p, gts, [], X, form=form, p=lev[0], q=lev[1], ell=lev[2]))
                         nsolves += 1
                         grp.append(k)
+                    # the slack form of the dual (an option of poly_constrained_dual, documented for the wrapper as well)
+                    k = ('dual+slacks', 'p,q,ell=%s' % (lev,))
+                    vals[k] = _solve(lambda: sp.poly_constrained_dual(p, gts, [], lev[0], lev[1], lev[2], X, slacks=True))
+                    k2 = ('dual+slacks via wrapper', 'p,q,ell=%s' % (lev,))
+                    vals[k2] = _solve(lambda: sp.poly_constrained_relaxation(p, gts, [], X, form='dual', p=lev[0], q=lev[1], ell=lev[2], slacks=True))
+                    nsolves += 2
+                    grp += [k, k2]
                     groups.append(grp)
                 chains = []
                 for form in ('primal', 'dual'):
